@@ -15,6 +15,11 @@ Extracted, fail closed on any other shape:
     __add__ must be `self.array += other` / `self.array = other`;
   * the shape of ArrayBase.__eq__ (arrays compared only when the left side is initialised / None-ness compared
     on both sides first) and whether Photon.__eq__ compares `(_num_rows, _num_cols)`;
+  * the guards of the getters (`ArrayBase.array`, `Photon.array`, `Photon.array_3d`) and of both `__array__`
+    methods in front of `return self._array` (which test, which exception);
+  * what `empty()` stores for every class (None / float zeros of the container shape), what `update(None)` does
+    (`self.empty()` / `self._array = None`), which buckets `Detector.empty(reset)` empties always / under `if reset:`,
+    and whether `MKID.empty` zeroes an initialised phase array under `reset`;
   * numpy's in-place output-casting rule `dst += src` over the dtype enum, read from the installed numpy
     (can_cast(result_type(dst, src), dst, 'same_kind'), cross-checked by executing the addition).
 """
@@ -47,7 +52,7 @@ CLASSES = {  # class -> (file, Coq constructor)
     "Phase": ("pyxel/data_structure/phase.py", "Phase"),
 }
 # methods a subclass of ArrayBase must not redefine (the model takes them from ArrayBase)
-BASE_ONLY = {"_validate", "array", "__iadd__", "__add__", "__eq__", "shape", "dtype"}
+BASE_ONLY = {"_validate", "array", "__iadd__", "__add__", "__eq__", "shape", "dtype", "__array__"}
 
 
 def find_class(tree: ast.AST, name: str) -> ast.ClassDef:
@@ -270,6 +275,124 @@ def photon_eq_geom(fn: ast.FunctionDef) -> bool:
 
 
 
+# ---- getters, __array__, empty, update, Detector.empty ------------------------------------------------------------
+
+NONE_TESTS = {"self._array is None", "not _is_array_initialized(self._array)"}
+
+
+def getter_of(cls: ast.ClassDef, prop: str) -> ast.FunctionDef:
+    c = [n for n in cls.body if isinstance(n, ast.FunctionDef) and n.name == prop
+         and any(ast.unparse(d) == "property" for d in n.decorator_list)]
+    if len(c) != 1:
+        fail(cls, f"{cls.name}.{prop}: expected one @property getter")
+    return c[0]
+
+
+def raise_after_locals(body: list[ast.stmt], node) -> str:
+    """`[local = ...]* raise E(...)` -> E"""
+    for st in body[:-1]:
+        if not (isinstance(st, (ast.Assign, ast.AnnAssign))
+                and isinstance(st.targets[0] if isinstance(st, ast.Assign) else st.target, ast.Name)):
+            fail(st, "guard body: only local assignments may precede the raise")
+    return raise_class(body[-1:], node)
+
+
+def read_guards(fn: ast.FunctionDef, tests: dict, ret: set) -> dict:
+    """A getter: `if <test>: ... raise E` guards (any order, each at most once), then one accepted `return`."""
+    found = {}
+    body = [st for st in body_no_doc(fn) if not isinstance(st, (ast.Import, ast.ImportFrom))]
+    if not body or not isinstance(body[-1], ast.Return) or norm(body[-1]) not in ret:
+        fail(fn, f"{fn.name}: must end with one of {sorted(ret)}")
+    for st in body[:-1]:
+        if not (isinstance(st, ast.If) and not st.orelse and norm(st.test) in tests):
+            fail(st, f"{fn.name}: statement shape not accepted")
+        g = tests[norm(st.test)]
+        if g in found:
+            fail(st, f"{fn.name}: guard {g} twice")
+        found[g] = raise_after_locals(st.body, st)
+    return found
+
+
+def empty_kind(fn: ast.FunctionDef) -> str:
+    b = [norm(x) for x in body_no_doc(fn)]
+    if len(fn.args.args) != 1:
+        fail(fn, "empty() signature")
+    if b == ["self._array = None"]:
+        return "EmptyNone"
+    if b in (["self._array = np.zeros(shape=self._shape, dtype=float)"], ["self._array = np.zeros(self._shape, dtype=float)"],
+             ["self._array = np.zeros(shape=self._shape, dtype=np.float64)"], ["self._array = np.zeros(self._shape)"]):
+        return "EmptyZeros"
+    fail(fn, "empty(): shape not accepted")
+
+
+def update_kind(fn: ast.FunctionDef) -> str:
+    if [a.arg for a in fn.args.args] != ["self", "data"]:
+        fail(fn, "update() signature")
+    b = body_no_doc(fn)
+    if len(b) != 1 or not isinstance(b[0], ast.If) or norm(b[0].test) != "data is not None":
+        fail(fn, "update(): expected `if data is not None: ... else: ...`")
+    if [norm(x) for x in b[0].body] != ["self.array = np.asarray(data)"]:
+        fail(fn, "update(): the data branch must be `self.array = np.asarray(data)`")
+    e = [norm(x) for x in b[0].orelse]
+    if e == ["self.empty()"]:
+        return "UpdCallsEmpty"
+    if e == ["self._array = None"]:
+        return "UpdNone"
+    fail(fn, "update(): the None branch must be `self.empty()` or `self._array = None`")
+
+
+def own_method(cls: ast.ClassDef, name: str):
+    c = [n for n in cls.body if isinstance(n, ast.FunctionDef) and n.name == name]
+    if len(c) > 1:
+        fail(cls, f"{cls.name}.{name}: several definitions")
+    return c[0] if c else None
+
+
+def detector_empty_table(fn: ast.FunctionDef) -> dict:
+    """Detector.empty(reset): `self.<bucket>.empty()` statements, unconditional or under `if reset:` (no else)."""
+    if [a.arg for a in fn.args.args] != ["self", "reset"]:
+        fail(fn, "Detector.empty signature")
+    tab = {}
+
+    def visit(st, kind):
+        t = norm(st)
+        for b in ("photon", "pixel", "signal", "image"):
+            if t == f"self.{b}.empty()":
+                if b in tab:
+                    fail(st, f"Detector.empty: {b} emptied twice")
+                tab[b] = kind
+                return
+        if t in ("self.charge.empty()", "self.scene = Scene()", "self.scene.empty()"):
+            return                                   # not a C13 bucket
+        fail(st, "Detector.empty: unexpected statement")
+
+    for st in body_no_doc(fn):
+        if isinstance(st, ast.If):
+            if norm(st.test) != "reset" or st.orelse:
+                fail(st, "Detector.empty: only `if reset:` without else is accepted")
+            for x in st.body:
+                visit(x, "DIfReset")
+        else:
+            visit(st, "DAlways")
+    return {b: tab.get(b, "DNever") for b in ("photon", "pixel", "signal", "image")}
+
+
+def mkid_phase_zero(fn) -> bool:
+    if fn is None:
+        return False                                  # MKID does not override empty(): the phase array is kept
+    b = [norm(x) for x in body_no_doc(fn)]
+    if [a.arg for a in fn.args.args] != ["self", "reset"] or not b or b[0] != "super().empty(reset)":
+        fail(fn, "MKID.empty must start with super().empty(reset)")
+    if len(b) == 1:
+        return False
+    zero = {"if reset and self._phase and (self._phase._array is not None):\n    self.phase.array *= 0",
+            "if reset and self._phase and self._phase._array is not None:\n    self.phase.array *= 0"}
+    if len(b) == 2 and b[1] in zero:
+        return True
+    fail(fn, "MKID.empty: shape not accepted")
+
+
+
 def numpy_iadd_table():
     import warnings
 
@@ -350,6 +473,16 @@ def extract(repo: Path) -> dict:
             fail(fn, f"ArrayBase.{nm} must be `self.array += other` on an initialised / `self.array = other` on an empty "
                      "container, then `return self`")
     info["base_eq"] = base_eq_kind(find_func(tree, "__eq__", "ArrayBase"))
+    init_fn = find_func(tree, "_is_array_initialized")
+    if [norm(x) for x in body_no_doc(init_fn)] != ["return data is not None"]:
+        fail(init_fn, "_is_array_initialized must be `return data is not None`")
+    rd = {}
+    rd["base"] = read_guards(getter_of(base, "array"), {t: "none" for t in NONE_TESTS}, {"return self._array"})
+    rd["aa_base"] = read_guards(find_func(tree, "__array__", "ArrayBase"),
+                                {"not isinstance(self._array, np.ndarray)": "notnp"},
+                                {"return np.asarray(self._array, dtype=dtype)", "return np.asarray(self._array)"})
+    empties = {"ArrayBase": empty_kind(find_func(tree, "empty", "ArrayBase"))}
+    updates = {"ArrayBase": update_kind(find_func(tree, "update", "ArrayBase"))}
 
     # ---- subclasses
     tls = {}
@@ -370,6 +503,9 @@ def extract(repo: Path) -> dict:
         ini = find_func(t, "__init__", cname)
         if [norm(s) for s in body_no_doc(ini)] != ["super().__init__(shape=(geo.row, geo.col))"]:
             fail(ini, f"{cname}.__init__ must be super().__init__(shape=(geo.row, geo.col))")
+        fe, fu = own_method(cls, "empty"), own_method(cls, "update")
+        empties[cname] = empty_kind(fe) if fe is not None else empties["ArrayBase"]
+        updates[cname] = update_kind(fu) if fu is not None else updates["ArrayBase"]
     info["type_lists"] = tls
 
     # ---- Photon
@@ -414,6 +550,17 @@ def extract(repo: Path) -> dict:
     check_order(s3, o3, ["type", "dtype", "ndim", "dims", "shape", "coord", "clip"])
     info["q"], info["q_clip"] = f3, clip3
 
+    rd["ph2"] = read_guards(getter_of(ph, "array"), {**{t: "none" for t in NONE_TESTS},
+                                                    "isinstance(self._array, xr.DataArray)": "other"}, {"return self._array"})
+    rd["ph3"] = read_guards(getter_of(ph, "array_3d"), {**{t: "none" for t in NONE_TESTS},
+                                                       "isinstance(self._array, np.ndarray)": "other"}, {"return self._array"})
+    rd["aa_ph"] = read_guards(find_func(t, "__array__", "Photon"), {t: "none" for t in NONE_TESTS},
+                              {"return np.asarray(self.array, dtype=dtype)", "return np.asarray(self.array)"})
+    info["reads"] = rd
+    empties["Photon"] = empty_kind(find_func(t, "empty", "Photon"))
+    if own_method(ph, "update") is not None:
+        fail(ph, "Photon.update is not modelled")
+    info["empties"], info["updates"] = empties, updates
     info["ph_iadd"] = photon_iadd_kind(find_func(t, "__iadd__", "Photon"))
     info["ph_add"] = photon_iadd_kind(find_func(t, "__add__", "Photon"))
     info["ph_eq_geom"] = photon_eq_geom(find_func(t, "__eq__", "Photon"))
@@ -453,8 +600,10 @@ def extract(repo: Path) -> dict:
                 fail(fn, "Detector.photon setter shape not accepted")
         else:
             fail(fn, f"Detector.{bucket} setter shape not accepted")
+    info["d_empty"] = detector_empty_table(find_func(t, "empty", "Detector"))
     t = parse(repo, "pyxel/detectors/mkid/mkid.py")
     mk = find_class(t, "MKID")
+    info["mkid_phase_zero"] = mkid_phase_zero(own_method(mk, "empty"))
     fn = setter_of(mk, "phase")
     if fn is None:
         setters["phase"] = "SetterNone"
@@ -481,6 +630,7 @@ def render(info: dict, iadd_rows) -> str:
     def lst(names):
         return "[" + "; ".join(COQ_DT[n] for n in names) + "]" if names else "[]"
 
+    rd, de = info["reads"], info["d_empty"]
     rows = ";\n   ".join("[" + "; ".join("true" if x else "false" for x in row) + "]" for row in iadd_rows)
     st = info["setters"]
     return (HEADER +
@@ -494,6 +644,13 @@ def render(info: dict, iadd_rows) -> str:
             "Definition src_det_setter (k : ckind) : setter_kind :=\n  match k with\n"
             f"  | Photon => {st['photon']}\n  | Pixel => {st['pixel']}\n  | Signal => {st['signal']}\n"
             f"  | Image => {st['image']}\n  | Phase => {st['phase']}\n  end.\n\n"
+            "Definition src_empty_of (k : ckind) : empty_kind :=\n  match k with\n"
+            + "".join(f"  | {CLASSES[c][1]} => {info['empties'][c]}\n" for c in CLASSES) + "  end.\n\n"
+            "Definition src_upd_none (k : ckind) : upd_none_kind :=\n  match k with\n  | Photon => UpdNone   (* Photon has no update() *)\n"
+            + "".join(f"  | {CLASSES[c][1]} => {info['updates'][c]}\n" for c in CLASSES if c != "Photon") + "  end.\n\n"
+            "Definition src_d_empty (k : ckind) : dempty_kind :=\n  match k with\n"
+            f"  | Photon => {de['photon']}\n  | Pixel => {de['pixel']}\n  | Signal => {de['signal']}\n"
+            f"  | Image => {de['image']}\n  | Phase => DNever   (* MKID.empty handles the phase array *)\n  end.\n\n"
             "Definition src_tables : tables :=\n"
             "  {| type_list := src_type_list; iadd_ok := src_iadd_ok;\n"
             f"     v_type := {g(info['v'], 'type')}; v_dtype := {g(info['v'], 'dtype')}; v_shape := {g(info['v'], 'shape')};\n"
@@ -504,7 +661,13 @@ def render(info: dict, iadd_rows) -> str:
             f"     q_clip := {'true' if info['q_clip'] else 'false'};\n"
             "     det_setter := src_det_setter;\n"
             f"     ph_iadd := {info['ph_iadd']}; ph_add := {info['ph_add']};\n"
-            f"     base_eq := {info['base_eq']}; ph_eq_geom := {'true' if info['ph_eq_geom'] else 'false'} |}}.\n")
+            f"     base_eq := {info['base_eq']}; ph_eq_geom := {'true' if info['ph_eq_geom'] else 'false'};\n"
+            f"     rd_base := {g(rd['base'], 'none')};\n"
+            f"     rd_ph2_none := {g(rd['ph2'], 'none')}; rd_ph2_xr := {g(rd['ph2'], 'other')};\n"
+            f"     rd_ph3_none := {g(rd['ph3'], 'none')}; rd_ph3_np := {g(rd['ph3'], 'other')};\n"
+            f"     aa_base := {g(rd['aa_base'], 'notnp')}; aa_ph_none := {g(rd['aa_ph'], 'none')};\n"
+            "     empty_of := src_empty_of; upd_none := src_upd_none; d_empty := src_d_empty;\n"
+            f"     mkid_phase_zero := {'true' if info['mkid_phase_zero'] else 'false'} |}}.\n")
 
 
 def _npver() -> str:
@@ -528,6 +691,13 @@ _FALLBACK_INFO = {
     "setters": {"photon": "SetterDispatch", "pixel": "SetterValidating", "signal": "SetterValidating",
                 "image": "SetterValidating", "phase": "SetterNone"},
     "ph_iadd": "IAddSetters", "ph_add": "IAddSetters", "base_eq": "EqBothNone", "ph_eq_geom": True,
+    "reads": {"base": {"none": "ValueError"}, "ph2": {"none": "ValueError", "other": "TypeError"},
+              "ph3": {"none": "ValueError", "other": "TypeError"}, "aa_base": {"notnp": "TypeError"},
+              "aa_ph": {"none": "ValueError"}},
+    "empties": {"Photon": "EmptyNone", "Pixel": "EmptyZeros", "Signal": "EmptyNone", "Image": "EmptyNone", "Phase": "EmptyNone"},
+    "updates": {"Pixel": "UpdNone", "Signal": "UpdCallsEmpty", "Image": "UpdCallsEmpty", "Phase": "UpdCallsEmpty"},
+    "d_empty": {"photon": "DAlways", "pixel": "DIfReset", "signal": "DAlways", "image": "DAlways"},
+    "mkid_phase_zero": True,
 }
 
 
